@@ -175,4 +175,21 @@ CHECKS['C10'] = {
   'technique': 'effect rule on pointer-to-integer conversions with positive example, sibling form extraction, loop-header partial evaluation',
 }
 
+CHECKS['C13'] = {
+  'text': 'Decides the structural side of thread isolation: the only run-time-written shared storage is a frozen reasoned list (none '
+          'in collector/exception/allocator code); a thread binds its key before creating its own collector and exception record, which '
+          'are found through current(Thread); join reaches pthread_join on every path with a handle; lock/unlock/trylock/with map onto the '
+          'pthread calls on the object\'s own mutex. Does not decide schedules or memory visibility.',
+  'note': ASSUME + '; pthread primitives behave as specified',
+  'technique': 'who-may-write rule over file-scope/static storage, dominance ordering, must-pass cuts, slot tables',
+}
+CHECKS['C18'] = {
+  'text': 'Decides configuration independence structurally: every CELLO_*_CHECK-only region (from the preprocessor directives) is a '
+          'pure test; cache-conditional code lives only in the dispatcher and agrees with the scan; collector-only regions only '
+          'register/create/tear down; every layout-agreement rule and the compile-time witnesses hold under each configuration\'s '
+          'header (quick: 2 parsed configurations + 8 compile witnesses; thorough: all 8 parsed). Does not decide optimisation levels.',
+  'note': ASSUME + '; only the Linux preprocessor branches are parsed',
+  'technique': 'preprocessor-region classification over the parsed program, multi-configuration re-evaluation of layout rules, compile-fail witnesses',
+}
+
 NOT_APPLICABLE = {}
